@@ -104,6 +104,9 @@ def run(ctx):
         first = i2["_stderr"][i2["_stderr"].find("WARNING: DATA RACE"):][:3000]
         fn = re.findall(r"^\s+(github.com/Vedant9500/WTF/\S+)\(\)", first, re.M)
         ctx.violation("C11|race|%s" % (fn[0].split("/")[-1] if fn else "unknown"), "the race detector reports %d data race(s); first:\n%s" % (races, first), first, name="race")
+    elif "fatal error: concurrent map" in i2["_stderr"]:
+        first = i2["_stderr"][i2["_stderr"].find("fatal error: concurrent map"):][:3000]
+        ctx.violation("C11|crash|concurrent-map-access", "the runtime aborted the concurrent searches:\n%s" % first, first, name="race")
     elif i2["_rc"] != 0:
         raise Infra("concurrent search driver failed (exit %d): %s" % (i2["_rc"], i2["_stderr"][-2000:]))
     ok2, rej2 = 0, []
@@ -112,7 +115,7 @@ def run(ctx):
     for x in rej2:
         evs, at = x["trace"], x["at"]
         ev = json.loads(evs[at - 1])
-        sig = "C11|lost-increment" if ev["op"] == "ctotal" else "C11|%s|%s" % ("panic" if ev.get("panic") else "answer-differs", ev.get("entry"))
+        sig = "C11|lost-increment" if ev["op"] == "ctotal" else "C11|caller-options-modified" if ev["op"] == "coptions" else "C11|%s|%s" % ("panic" if ev.get("panic") else "answer-differs", ev.get("entry"))
         ctx.violation(sig, "concurrent run: %s" % evs[at - 1][:300], ev, name="conc")
     cov = {"states": r["distinct"], "transitions": r["generated"], "traces_validated_against_impl": len(hs) - len(bad) + ok2,
            "samples": [[json.loads(e) for e in hs[0][:9]]], "lru_histories": len(hs), "lru_events": i1.get("events"),
